@@ -350,7 +350,18 @@ def r4_raise_census(ctx):
                          f"{t} is neither ValueError/TypeError nor documented for {f.short}; it would escape for otherwise valid input")
         for a in astx.walk_own(f.node):
             if isinstance(a, ast.Assert) and not astx.is_const(a.test, False):
-                ctx.violated(f, a, "assert in election code", "AssertionError could escape")
+                # an assertion that restates what the path already established cannot fire
+                from vk.algebra import implies
+                pm = pm or astx.parents(f.node)
+                Na = Normalizer(f.node, inline=False)
+                try:
+                    redundant = implies(Na.conj(astx.path_condition(f.node, a, pm)), Na.guard(a.test))
+                except Exception:
+                    redundant = False
+                if redundant:
+                    ctx.ok(f, a, "assert restating its path condition", astx.u(a.test)[:60])
+                else:
+                    ctx.violated(f, a, "assert in election code", "AssertionError could escape")
 
 
 # --------------------------------------------------------------------------------------------- R5
